@@ -9,6 +9,7 @@ import (
 	"flag"
 	"fmt"
 	"os"
+	"os/exec"
 	"path/filepath"
 	"runtime"
 	"runtime/debug"
@@ -48,10 +49,15 @@ func main() {
 	knownPath := flag.String("known", "/verif/known_findings.json", "known findings file")
 	fbr := flag.String("funcs-by-rule", "", "tsv func<TAB>property<TAB>rule: run only the properties that analyse the mutated function ('' = all)")
 	max := flag.Int("max", 0, "stop after this many variants (0 = no limit); exit status 3 means more remain")
+	fixtures := flag.String("fixtures", "", "fixture battery: directory with <property>/<name>.patch files (first line `# expect: <keys…>|silent`); prints selfcheck lines")
+	fixProps := flag.String("fixture-props", "", "comma separated property ids whose fixtures to run (default all)")
 	flag.Parse()
 	if os.Getenv("GOMAXPROCS") == "" {
 		os.Setenv("GOMAXPROCS", "4")
 		runtime.GOMAXPROCS(4)
+	}
+	if *fixtures != "" {
+		os.Exit(runFixtures(*repo, *fixtures, *fixProps, *knownPath))
 	}
 	var muts []mutant
 	b, err := os.ReadFile(filepath.Join(*mdir, "mutants.json"))
@@ -228,4 +234,164 @@ func clip(s string, n int) string {
 func fatal(err error) {
 	fmt.Fprintln(os.Stderr, "ERROR:", err)
 	os.Exit(2)
+}
+
+// runFixtures applies each fixture patch to copies of the files it touches,
+// analyses the resulting variant in-process and compares the reports with the
+// fixture's expectation. Output format is that of tools/selfcheck.sh.
+func runFixtures(repo, dir, props, knownPath string) int {
+	known, err := eng.LoadKnown(knownPath)
+	if err != nil {
+		fatal(err)
+	}
+	want := map[string]bool{}
+	for _, p := range strings.Split(props, ",") {
+		if p = strings.TrimSpace(p); p != "" {
+			want[p] = true
+		}
+	}
+	pds, _ := os.ReadDir(dir)
+	type fx struct{ prop, name, path string }
+	var list []fx
+	for _, pd := range pds {
+		if !pd.IsDir() || (len(want) > 0 && !want[pd.Name()]) {
+			continue
+		}
+		fs, _ := os.ReadDir(filepath.Join(dir, pd.Name()))
+		for _, f := range fs {
+			if strings.HasSuffix(f.Name(), ".patch") {
+				list = append(list, fx{pd.Name(), strings.TrimSuffix(f.Name(), ".patch"), filepath.Join(dir, pd.Name(), f.Name())})
+			}
+		}
+	}
+	if len(list) == 0 {
+		fmt.Println("selfcheck: no fixtures")
+		return 0
+	}
+	base, err := eng.LoadBase(repo, "")
+	if err != nil {
+		fatal(err)
+	}
+	nok, nfail, nstale := 0, 0, 0
+	for _, f := range list {
+		ov, expect, err := fixtureOverlay(repo, f.path)
+		if err != nil {
+			nstale++
+			fmt.Printf("SELFCHECK-STALE %s/%s: patch does not apply to the current tree (fixture needs re-basing; not a property verdict): %v\n", f.prop, f.name, err)
+			continue
+		}
+		var got []string
+		func() {
+			defer func() {
+				if p := recover(); p != nil {
+					got = append(got, fmt.Sprint("panic: ", p))
+				}
+				rules.ResetCaches()
+				debug.FreeOSMemory()
+			}()
+			c, err := base.Variant(ov)
+			if err != nil {
+				got = append(got, "ERROR: "+clip(err.Error(), 300))
+				return
+			}
+			c.Tier = "quick"
+			var rrs []eng.RuleResult
+			for _, r := range rules.RulesFor(f.prop) {
+				rrs = append(rrs, eng.RunRule(c, r))
+			}
+			pr := eng.Summarise(f.prop, rrs, known)
+			seen := map[string]bool{}
+			for _, o := range pr.Violations {
+				if !seen[o.Key] {
+					seen[o.Key] = true
+					got = append(got, o.Key)
+				}
+			}
+		}()
+		sort.Strings(got)
+		if expect == "silent" {
+			if len(got) > 0 {
+				nfail++
+				fmt.Printf("SELFCHECK-FAIL %s/%s: expected silence, got:\n    %s\n", f.prop, f.name, strings.Join(got, "\n    "))
+			} else {
+				nok++
+				fmt.Printf("selfcheck ok   %s/%s: silent (behaviour-preserving edit)\n", f.prop, f.name)
+			}
+			continue
+		}
+		ok := true
+		for _, e := range strings.Fields(expect) {
+			hit := false
+			for _, g := range got {
+				if strings.Contains(g, e) {
+					hit = true
+				}
+			}
+			if !hit {
+				ok = false
+				fmt.Printf("SELFCHECK-FAIL %s/%s: expected a report matching '%s'; got:\n    %s\n", f.prop, f.name, e, strings.Join(append(got, ""), "\n    "))
+			}
+		}
+		if ok {
+			nok++
+			fmt.Printf("selfcheck ok   %s/%s: fired %d report(s) incl. %s\n", f.prop, f.name, len(got), expect)
+		} else {
+			nfail++
+		}
+	}
+	fmt.Printf("selfcheck: %d ok, %d failed, %d stale of %d fixtures\n", nok, nfail, nstale, len(list))
+	if nfail > 0 {
+		return 1
+	}
+	return 0
+}
+
+// fixtureOverlay returns the contents of the files a fixture patch touches after applying it.
+func fixtureOverlay(repo, patch string) (map[string][]byte, string, error) {
+	b, err := os.ReadFile(patch)
+	if err != nil {
+		return nil, "", err
+	}
+	expect := ""
+	var files []string
+	for _, l := range strings.Split(string(b), "\n") {
+		if strings.HasPrefix(l, "# expect:") && expect == "" {
+			expect = strings.TrimSpace(strings.TrimPrefix(l, "# expect:"))
+		}
+		if strings.HasPrefix(l, "+++ ") {
+			f := strings.Fields(l)[1]
+			if i := strings.Index(f, "/"); i >= 0 {
+				f = f[i+1:] // strip the a/ b/ x/ prefix
+			}
+			files = append(files, f)
+		}
+	}
+	tmp, err := os.MkdirTemp("", "gtfx")
+	if err != nil {
+		return nil, "", err
+	}
+	defer os.RemoveAll(tmp)
+	for _, f := range files {
+		src, err := os.ReadFile(filepath.Join(repo, f))
+		if err != nil && !os.IsNotExist(err) {
+			return nil, "", err
+		}
+		os.MkdirAll(filepath.Dir(filepath.Join(tmp, f)), 0o755)
+		if err == nil {
+			os.WriteFile(filepath.Join(tmp, f), src, 0o644)
+		}
+	}
+	cmd := exec.Command("patch", "-p1", "-s", "--no-backup-if-mismatch", "-d", tmp, "-i", patch)
+	if out, err := cmd.CombinedOutput(); err != nil {
+		return nil, "", fmt.Errorf("%v: %s", err, clip(string(out), 200))
+	}
+	ov := map[string][]byte{}
+	for _, f := range files {
+		nb, err := os.ReadFile(filepath.Join(tmp, f))
+		if err != nil {
+			return nil, "", err
+		}
+		ov[f] = nb
+	}
+	return ov, expect, nil
 }
